@@ -184,7 +184,7 @@ def base_text(b):
 
 def leaf_text(leaf):
     s = base_text(leaf["b"])
-    for f in leaf["f"]:
+    for f in [] if leaf.get("hide_f") else leaf["f"]:
         s += "|" + f.get("sp", "") + f["n"]
         if f.get("a") is not None:
             s += ":" + base_text(f["a"])
@@ -284,6 +284,17 @@ def _r_base(L, b):
 
 def _r_leaf(L, leaf):
     _r_base(L, leaf["b"])
+    if leaf.get("hide_f"):
+        # variant used for defect classification: the filters are not printed, but they consume the
+        # same tape values, so the rest of the layout stays exactly as it was
+        n_out, n_sk = len(L.out), len(L.sk)
+        _r_filters(L, leaf)
+        del L.out[n_out:], L.sk[n_sk:]
+    else:
+        _r_filters(L, leaf)
+
+
+def _r_filters(L, leaf):
     for f in leaf["f"]:
         L.opt()
         L.emit("|")
@@ -493,6 +504,29 @@ def has_top_spread_filter(args):
 def has_str_ending_in_escaped_backslash(args):
     """A quoted string (plain or translation) whose source ends with an escaped backslash: "abc\\"."""
     return any(n.get("t") in ("str", "trans") and _ESC_BS_END.search(n["v"]) for n in walk(args["attrs"]))
+
+
+def without_top_spread_filters(args):
+    """Copy of the AST in which the filters of top-level `...value|filter` attributes are hidden (not printed,
+    not evaluated, but still consuming layout-tape values so that the rest of the layout is unchanged)."""
+    import copy
+
+    a2 = copy.deepcopy(args)
+    for a in a2["attrs"]:
+        if a["t"] == "sp" and a["tok"] == "..." and a["v"]["t"] == "leaf" and a["v"]["f"]:
+            a["v"]["hide_f"] = True
+    return a2
+
+
+def with_padded_backslash_strings(args):
+    """Copy of the AST in which every string ending in an escaped backslash gets an `x` appended."""
+    import copy
+
+    a2 = copy.deepcopy(args)
+    for n in walk(a2["attrs"]):
+        if n.get("t") in ("str", "trans") and _ESC_BS_END.search(n["v"]):
+            n["v"] += "x"
+    return a2
 
 
 def is_nontrivial_ast(args):
